@@ -1294,7 +1294,14 @@ class Grammar:
         Handles `let x = p.parse_next(i)?`, `let (a, b, c) = (p1, p2, p3).parse_next(i)?` (element-wise) and
         `let (items, _) = repeat_till(..).parse_next(i)?` (the collected list is bound to the repetition itself)."""
         out = {}
-        for st in fb.get("steps", []):
+        steps = list(fb.get("steps", []))
+        # `P.map(|(a, b, c)| ..).parse_next(input)` binds the same values as `let (a, b, c) = P.parse_next(input)?; ..`
+        t_ = fb.get("tail")
+        while t_ is not None and t_["t"] in ("ctx", "cut"):
+            t_ = t_["p"]
+        if t_ is not None and t_["t"] in ("map", "trymap") and not t_.get("result_map") and isinstance(t_.get("f"), dict) and t_["f"].get("k") == "closure" and len(t_["f"]["params"]) == 1:
+            steps.append({"pat": t_["f"]["params"][0], "p": t_["p"]})
+        for st in steps:
             pat, p = st["pat"], st["p"]
             q = p
             while q["t"] in ("ctx", "cut"):
